@@ -936,9 +936,13 @@ def CheckBlock(block, fCheckPoW = True, fCheckMerkleRoot = True, cur_time=None):
             root = block.vWitnessMerkleTree[-1]
             # vtx[0]: coinbase
             # vtxinwit[0]: first input
+            if len(block.vtx[0].wit.vtxinwit) < 1:
+                raise CheckBlockError("CheckBlock() : coinbase has no witness")
             nonce_script = block.vtx[0].wit.vtxinwit[0].scriptWitness
+            if len(nonce_script.stack) != 1:
+                raise CheckBlockError("CheckBlock() : invalid coinbase witnessScript")
             nonce = nonce_script.stack[0]
-            if len(nonce_script.stack) != 1 or len(nonce) != 32:
+            if len(nonce) != 32:
                 raise CheckBlockError("CheckBlock() : invalid coinbase witnessScript")
             try:
                 index = block.get_witness_commitment_index()
